@@ -509,3 +509,22 @@ POS-SURF:代名詞/は\t-300"
         assert_eq!(conn.cost(0, 0), -200);
     }
 }
+
+#[cfg(feature = "verif")]
+impl RawConnector {
+    pub fn verif_right_feat_ids(&self) -> &[U31x8] {
+        &self.right_feat_ids
+    }
+
+    pub fn verif_left_feat_ids(&self) -> &[U31x8] {
+        &self.left_feat_ids
+    }
+
+    pub const fn verif_feat_template_size(&self) -> usize {
+        self.feat_template_size
+    }
+
+    pub const fn verif_scorer(&self) -> &Scorer {
+        &self.scorer
+    }
+}
